@@ -40,11 +40,47 @@ pub proof fn lemma_perim_scale(bcr: Map<Carrier, BalanceCarrier>, bcr2: Map<Carr
         lemma_dist2(ct, perim_sum(bcr, p, l.drop_last()), perim_term(bcr, p, c));
     }
 }
-/// the time axes of the two component lists are related through the layout (idx, cs)
-pub open spec fn inputs_rel(cs: Seq<Energy>, cs2: Seq<Energy>, idx: Seq<int>, k: real) -> bool {
+/// component by component: same tags, values related through the layout (idx, k)  (the hypothesis of C09 / C11)
+pub open spec fn inputs_vals(cs: Seq<Energy>, cs2: Seq<Energy>, idx: Seq<int>, k: real) -> bool {
     &&& tags_same(cs, cs2) && comps_wf(cs) && comps_wf(cs2) && vals_dom(cs) && vals_dom(cs2)
     &&& nsteps(cs2) == idx.len() && (nsteps(cs2) > 0) == (nsteps(cs) > 0)
     &&& (forall|i2: int| 0 <= i2 < idx.len() ==> 0 <= #[trigger] idx[i2] < nsteps(cs) && val_rel(cs, cs2, idx[i2], i2, k))
+}
+/// the components of carrier c in the two lists have the same classes and classified sums related through the layout
+pub open spec fn carrier_rel(cs: Seq<Energy>, cs2: Seq<Energy>, c: Carrier, idx: Seq<int>, k: real) -> bool {
+    sel_same(filter_carrier(cs, c), filter_carrier(cs2, c))
+        && forall|i2: int| 0 <= i2 < idx.len() ==> #[trigger] acc_rel(filter_carrier(cs, c), filter_carrier(cs2, c), idx[i2], i2, k)
+}
+/// THE GENERAL HYPOTHESIS: the two component lists need not correspond component by component - it is enough that, as a whole and carrier
+/// by carrier, they have the same classes of components and classified sums related through the layout (idx, k).  Reordered lines, a
+/// component split into lines that add up, merged lines, other system ids all satisfy it with k = 1 and the identity layout.
+pub open spec fn inputs_rel(cs: Seq<Energy>, cs2: Seq<Energy>, idx: Seq<int>, k: real) -> bool {
+    &&& comps_wf(cs) && comps_wf(cs2) && vals_dom(cs) && vals_dom(cs2)
+    &&& nsteps(cs2) == idx.len() && (nsteps(cs2) > 0) == (nsteps(cs) > 0)
+    &&& (forall|i2: int| 0 <= i2 < idx.len() ==> 0 <= #[trigger] idx[i2] < nsteps(cs))
+    &&& sel_same(cs, cs2) && (forall|i2: int| 0 <= i2 < idx.len() ==> #[trigger] acc_rel(cs, cs2, idx[i2], i2, k))
+    &&& (forall|c: Carrier| #[trigger] in_avail(cs2, c) == in_avail(cs, c))
+    &&& (forall|c: Carrier| in_avail(cs, c) ==> #[trigger] carrier_rel(cs, cs2, c, idx, k))
+}
+pub proof fn lemma_inputs_vals(cs: Seq<Energy>, cs2: Seq<Energy>, idx: Seq<int>, k: real)
+    requires inputs_vals(cs, cs2, idx, k),
+    ensures inputs_rel(cs, cs2, idx, k),
+{
+    lemma_sel_same(cs, cs2);
+    assert forall|i2: int| 0 <= i2 < idx.len() implies #[trigger] acc_rel(cs, cs2, idx[i2], i2, k) by {
+        assert(0 <= idx[i2] < nsteps(cs) && val_rel(cs, cs2, idx[i2], i2, k));
+        lemma_acc_rel(cs, cs2, idx[i2], i2, k);
+    }
+    assert forall|c: Carrier| #[trigger] in_avail(cs2, c) == in_avail(cs, c) by { lemma_avail_tags(cs, cs2, c); }
+    assert forall|c: Carrier| in_avail(cs, c) implies #[trigger] carrier_rel(cs, cs2, c, idx, k) by {
+        lemma_filter_rel(cs, cs2, c);
+        lemma_sel_same(filter_carrier(cs, c), filter_carrier(cs2, c));
+        assert forall|i2: int| 0 <= i2 < idx.len() implies #[trigger] acc_rel(filter_carrier(cs, c), filter_carrier(cs2, c), idx[i2], i2, k) by {
+            assert(0 <= idx[i2] < nsteps(cs) && val_rel(cs, cs2, idx[i2], i2, k));
+            lemma_filter_val(cs, cs2, c, idx[i2], i2, k);
+            lemma_acc_rel(filter_carrier(cs, c), filter_carrier(cs2, c), idx[i2], i2, k);
+        }
+    }
 }
 /// what the theorem concludes of two successful evaluations
 pub open spec fn ep_rel(x: EnergyPerformance, y: EnergyPerformance, idx: Seq<int>, k: real, ct: real) -> bool {
@@ -80,18 +116,15 @@ pub proof fn lemma_ep_carrier(comps: Components, comps2: Components, k_exp: f32,
     let fa = filter_carrier(cs, c); let fb = filter_carrier(cs2, c);
     let a = Run { cs: fa, used: bx.used, prod: bx.prod, fm: bx.f_match@, exp: bx.exp, del: bx.del };
     let b = Run { cs: fb, used: by.used, prod: by.prod, fm: by.f_match@, exp: by.exp, del: by.del };
-    lemma_avail_tags(cs, cs2, c);
+    assert(in_avail(cs2, c) == in_avail(cs, c));
+    assert(carrier_rel(cs, cs2, c, idx, k));
     lemma_filter_carrier(cs, c, n); lemma_filter_carrier(cs2, c, n2);
-    lemma_filter_rel(cs, cs2, c);
-    lemma_sel_same(fa, fb);
     lemma_vals_dom_filter(cs, c); lemma_vals_dom_filter(cs2, c);
     assert(e_has_carrier(fa[0], c) && e_has_carrier(fb[0], c));
     assert(run_n(a) == n && run_n(b) == n2) by { assert(e_vals(fa[0]).len() == n && e_vals(fb[0]).len() == n2); }
     assert forall|i2: int| 0 <= i2 < idx.len() implies 0 <= #[trigger] idx[i2] < run_n(a) && acc_rel(a.cs, b.cs, idx[i2], i2, k)
             && in_dom(rv(a.prod.t@[idx[i2]])) && in_dom(rv(b.prod.t@[i2])) by {
-        assert(val_rel(cs, cs2, idx[i2], i2, k));
-        lemma_filter_val(cs, cs2, c, idx[i2], i2, k);
-        lemma_acc_rel(fa, fb, idx[i2], i2, k);
+        assert(acc_rel(fa, fb, idx[i2], i2, k));
         lemma_prod_in_dom(a, lm, idx[i2]);
         lemma_prod_in_dom(b, lm, i2);
     }
@@ -118,13 +151,11 @@ pub proof fn lemma_ep_lookups_cgn(comps: Components, comps2: Components, w: Seq<
     let cs = comps.data@; let cs2 = comps2.data@;
     let n = nsteps(cs); let n2 = nsteps(cs2);
     assert forall|i2: int| 0 <= i2 < idx.len() implies 0 <= #[trigger] idx[i2] < n && acc_rel(cs, cs2, idx[i2], i2, k) by {
-        assert(val_rel(cs, cs2, idx[i2], i2, k));
-        lemma_acc_rel(cs, cs2, idx[i2], i2, k);
+        assert(acc_rel(cs, cs2, idx[i2], i2, k));
     }
     assert forall|s: Sel| #[trigger] acc_an(cs2, s, n2 as int) == ct * acc_an(cs, s, n as int) by {
         lemma_acc_an_rel(cs, cs2, s, idx, n as int, k, ct);
     }
-    lemma_sel_same(cs, cs2);
     assert forall|c: Carrier| x.balance_cr@.contains_key(c) implies we_lookups_same(x.wfactors.wdata@, y.wfactors.wdata@, c, (#[trigger] x.balance_cr@[c]).exp, x.balance_cr@[c].del) by {
         lemma_cgn_added_same(w, x.wfactors.wdata@, y.wfactors.wdata@, cs, cs2, ct, c);
         lemma_fp_same_lookups(x.wfactors.wdata@, y.wfactors.wdata@, c, x.balance_cr@[c].exp, x.balance_cr@[c].del);
@@ -147,7 +178,7 @@ pub proof fn lemma_ep_bcr(comps: Components, comps2: Components, k_exp: f32, lm:
 {
     let cs = comps.data@; let cs2 = comps2.data@;
     let bcr = x.balance_cr@; let bcr2 = y.balance_cr@;
-    assert forall|c: Carrier| bcr.contains_key(c) == bcr2.contains_key(c) by { lemma_avail_tags(cs, cs2, c); }
+    assert forall|c: Carrier| bcr.contains_key(c) == bcr2.contains_key(c) by { assert(in_avail(cs2, c) == in_avail(cs, c)); }
     assert(bcr2.dom() =~= bcr.dom());
     assert forall|c: Carrier| bcr.contains_key(c) implies (#[trigger] bcr[c]).carrier == c && bcr2[c].carrier == c
             && steps_rel(run_of(bcr[c]), run_of(bcr2[c]), idx, k)
@@ -239,6 +270,7 @@ pub proof fn thm_c11_energy(comps: Components, comps2: Components, w: Seq<Factor
     assert forall|i2: int| 0 <= i2 < idx.len() implies 0 <= #[trigger] idx[i2] < nsteps(comps.data@) && val_rel(comps.data@, comps2.data@, idx[i2], i2, c) by {
         assert(idx[i2] == i2); assert(val_rel(comps.data@, comps2.data@, i2, i2, c));
     }
+    lemma_inputs_vals(comps.data@, comps2.data@, idx, c);
     thm_ok_agree(comps, comps2, w, k_exp, area, area, lm, r, r2, idx, c, c);
     thm_ep(comps, comps2, w, k_exp, area, area, lm, r, r2, idx, c, c);
 }
@@ -254,6 +286,7 @@ pub proof fn thm_c09_permutation(comps: Components, comps2: Components, w: Seq<F
 {
     let n = nsteps(comps.data@) as int;
     lemma_lay_perm(idx, n); lemma_lay_perm_r(idx, n);
+    lemma_inputs_vals(comps.data@, comps2.data@, idx, 1real);
     thm_ok_agree(comps, comps2, w, k_exp, area, area, lm, r, r2, idx, 1real, 1real);
     thm_ep(comps, comps2, w, k_exp, area, area, lm, r, r2, idx, 1real, 1real);
 }
@@ -278,6 +311,7 @@ pub proof fn thm_c09_subdivision(comps: Components, comps2: Components, w: Seq<F
         assert(0 <= i2 / m < n) by(nonlinear_arith) requires 0 <= i2 < n * m, m > 0;
         assert(val_rel(comps.data@, comps2.data@, i2 / m, i2, k));
     }
+    lemma_inputs_vals(comps.data@, comps2.data@, idx, k);
     thm_ok_agree(comps, comps2, w, k_exp, area, area, lm, r, r2, idx, k, 1real);
     thm_ep(comps, comps2, w, k_exp, area, area, lm, r, r2, idx, k, 1real);
 }
@@ -299,6 +333,7 @@ pub proof fn thm_c10_repeatable(comps: Components, w: Seq<Factor>, k_exp: f32, a
             assert(1real * rv(e_vals(cs[j])[i2]) == rv(e_vals(cs[j])[i2])) by(nonlinear_arith);
         }
     }
+    lemma_inputs_vals(cs, cs, idx, 1real);
     thm_ok_agree(comps, comps, w, k_exp, area, area2, lm, r, r2, idx, 1real, 1real);
     thm_ep(comps, comps, w, k_exp, area, area2, lm, r, r2, idx, 1real, 1real);
 }
@@ -436,18 +471,15 @@ pub proof fn lemma_ok_carrier(comps: Components, comps2: Components, lm: bool, i
 {
     let cs = comps.data@; let cs2 = comps2.data@;
     let n = nsteps(cs); let n2 = nsteps(cs2);
-    lemma_avail_tags(cs, cs2, c);
+    assert(in_avail(cs2, c) == in_avail(cs, c));
+    assert(carrier_rel(cs, cs2, c, idx, k));
     lemma_filter_carrier(cs, c, n); lemma_filter_carrier(cs2, c, n2);
-    lemma_filter_rel(cs, cs2, c);
-    lemma_sel_same(a.cs, b.cs);
     lemma_vals_dom_filter(cs, c); lemma_vals_dom_filter(cs2, c);
     assert(e_has_carrier(a.cs[0], c) && e_has_carrier(b.cs[0], c));
     assert(run_n(a) == n && run_n(b) == n2) by { assert(e_vals(a.cs[0]).len() == n && e_vals(b.cs[0]).len() == n2); }
     assert forall|i2: int| 0 <= i2 < idx.len() implies 0 <= #[trigger] idx[i2] < run_n(a) && acc_rel(a.cs, b.cs, idx[i2], i2, k)
             && in_dom(rv(a.prod.t@[idx[i2]])) && in_dom(rv(b.prod.t@[i2])) by {
-        assert(val_rel(cs, cs2, idx[i2], i2, k));
-        lemma_filter_val(cs, cs2, c, idx[i2], i2, k);
-        lemma_acc_rel(a.cs, b.cs, idx[i2], i2, k);
+        assert(acc_rel(a.cs, b.cs, idx[i2], i2, k));
         lemma_prod_in_dom(a, lm, idx[i2]);
         lemma_prod_in_dom(b, lm, i2);
     }
@@ -471,13 +503,12 @@ pub proof fn thm_ok_agree(comps: Components, comps2: Components, w: Seq<Factor>,
     if r2 is Err {
         let cs = comps.data@; let cs2 = comps2.data@;
         let x = r->Ok_0;
-        lemma_sel_same(cs, cs2);
         lemma_cgn_ok_same(w, cs, cs2);
         assert(cgn_ok(w, cs2));
         // so some carrier of the second building lacks a factor, for some tuple of flows that the contracts allow
         let (c, wf2, used, prod, fm, exp, del) = choose|c: Carrier, wf: Seq<Factor>, used: UsedEnergy, prod: ProducedEnergy, fm: Seq<f32>, exp: ExportedEnergy, del: DeliveredEnergy|
             in_avail(cs2, c) && #[trigger] cgn_added(w, wf, cs2) && #[trigger] flows_ok(cs2, c, lm, used, prod, fm, exp, del) && !we_factors_ok(wf, c, exp, del);
-        lemma_avail_tags(cs, cs2, c);
+        assert(in_avail(cs2, c) == in_avail(cs, c));
         assert(x.balance_cr@.contains_key(c));
         let bx = x.balance_cr@[c];
         assert(bfc_post(cs, x.wfactors.wdata@, c, rv(k_exp), lm, bx));
@@ -488,8 +519,7 @@ pub proof fn thm_ok_agree(comps: Components, comps2: Components, w: Seq<Factor>,
         // the two factor sets (with the derived cogeneration factors) read the same
         let n = nsteps(cs); let n2 = nsteps(cs2);
         assert forall|i2: int| 0 <= i2 < idx.len() implies 0 <= #[trigger] idx[i2] < n && acc_rel(cs, cs2, idx[i2], i2, k) by {
-            assert(val_rel(cs, cs2, idx[i2], i2, k));
-            lemma_acc_rel(cs, cs2, idx[i2], i2, k);
+            assert(acc_rel(cs, cs2, idx[i2], i2, k));
         }
         assert forall|s: Sel| #[trigger] acc_an(cs2, s, n2 as int) == ct * acc_an(cs, s, n as int) by { lemma_acc_an_rel(cs, cs2, s, idx, n as int, k, ct); }
         lemma_cgn_added_same(w, x.wfactors.wdata@, wf2, cs, cs2, ct, c);
